@@ -32,6 +32,8 @@ class Model:
         self.pkg = ssa['package']
         self.cfg = cfg
         self.nthreads = cfg['threads']
+        self.nprog = cfg.get('nprog', cfg['threads'])   # program goroutine slots; the rest are environment processes
+        self.cells = {}      # write-once heap cells (variables captured by closures)
         self.vars = {}       # state var name -> (sort, init value term)
         self.order = []
         self.locs = {}       # loc tuple -> id
@@ -482,6 +484,8 @@ class Seg:
                 self.setreg(p, fr, reg, ('field', x[1], x[2] + '.' + at['fieldname']))
             elif x[0] == 'eptr':
                 self.setreg(p, fr, reg, ('efield', x[1], at['fieldname']))
+            elif x[0] in ('cmdptr', 'timer'):
+                self.setreg(p, fr, reg, ('envfield', x[0], at['fieldname']))
             else:
                 raise Unsupported('FieldAddr on %r' % (x,))
             nxt(); return
@@ -501,6 +505,9 @@ class Seg:
                 p.set(m.var('E%d.result' % eid, init=BV(NIL)), BV(NIL))
                 p.set(m.var('E%d.mu' % eid), BV(0))
                 self.setreg(p, fr, reg, ('eptr', eid))
+            elif self.cfg.get('cells'):
+                # a variable captured by reference: write-once cell
+                self.setreg(p, fr, reg, ('cell', '%s.%s' % (fr.fn.split('.')[-1], reg)))
             else:
                 raise Unsupported('Alloc of %s' % at.get('elem'))
             nxt(); return
@@ -520,6 +527,24 @@ class Seg:
         if op == 'UnOp':
             tok = at['tok']
             x = v(0)
+            if tok == '<-':
+                return self.recv(p, fr, x, reg, at.get('commaok'))
+            if tok == '*' and isinstance(x, tuple) and x and x[0] in ('cell', 'envfield', 'obj'):
+                if x[0] == 'cell':
+                    if x[1] not in self.m.cells:
+                        raise Unsupported('read of unset cell ' + x[1])
+                    self.setreg(p, fr, reg, self.m.cells[x[1]])
+                elif x[0] == 'envfield':
+                    val = {('cmdptr', 'Process'): ('procptr',), ('timer', 'C'): ('chan', 'timerC')}.get((x[1], x[2]))
+                    if val is None:
+                        raise Unsupported('load of %r' % (x,))
+                    self.setreg(p, fr, reg, val)
+                else:
+                    g = self.cfg.get('globals', {})
+                    if x[1] not in g:
+                        raise Unsupported('load of global ' + x[1])
+                    self.setreg(p, fr, reg, g[x[1]])
+                nxt(); return
             if tok == '*':
                 if isinstance(x, tuple) and isinstance(x[0], str) and x[0] in ('field', 'efield', 'elem') and (not self.protected(p, x) or self.unlocked_readers(x)) and self.is_shared_plain(x):
                     if self.before_visible(p, 'load'):
@@ -535,6 +560,11 @@ class Seg:
             nxt(); return
         if op == 'Store':
             ref, val = v(0), v(1)
+            if isinstance(ref, tuple) and ref and ref[0] == 'cell':
+                if ref[1] in self.m.cells and _hashable(self.m.cells[ref[1]]) != _hashable(val) and not (z3.is_expr(val) and z3.is_expr(self.m.cells[ref[1]]) and val.eq(self.m.cells[ref[1]])):
+                    raise Unsupported('cell %s assigned two different values' % ref[1])
+                self.m.cells[ref[1]] = val
+                nxt(); return
             if isinstance(ref, tuple) and isinstance(ref[0], str) and ref[0] in ('field', 'efield', 'elem') and (not self.protected(p, ref) or self.unlocked_readers(ref)) and self.is_shared_plain(ref):
                 if self.before_visible(p, 'store'):
                     self.cut(p); return
@@ -571,6 +601,26 @@ class Seg:
         if op == 'MakeMap':
             self.setreg(p, fr, reg, ('newmap',))
             nxt(); return
+        if op == 'MakeChan':
+            if not (is_conc(v(0)) and v(0) == 0):
+                raise Unsupported('buffered channel')
+            self.setreg(p, fr, reg, ('chan', 'ch.%s.%s' % (fr.fn.split('.')[-1], reg)))
+            nxt(); return
+        if op == 'MakeClosure':
+            fnv = v(0)
+            names = self.m.funcs[fnv[1]].get('freevars') or []
+            binds = {}
+            for i, nme in enumerate(names):
+                b = v(1 + i)
+                if not isinstance(b, tuple) or has_term(b):
+                    raise Unsupported('closure binding %r' % (b,))
+                binds[nme] = b
+            self.setreg(p, fr, reg, ('func', fnv[1], binds))
+            nxt(); return
+        if op == 'Send':
+            return self.send(p, fr, v(0), v(1))
+        if op == 'Select':
+            return self.select(p, fr, ins, A, at, reg)
         if op == 'Lookup':
             mp, k = v(0), v(1)
             if mp[0] != 'map' or mp[1] is None:
@@ -650,6 +700,9 @@ class Seg:
             callee = self.val(p, fr, A[0])
             args = [self.val(p, fr, a) for a in A[1:]]
             self.spawn(p, callee, args)
+            # starting a goroutine is visible to the scheduler: a blocking operation that
+            # follows must not delay it, so the segment ends with the spawn
+            p.visible_done = True
             nxt(); return
         raise Unsupported('instruction %s in %s' % (op, fr.fn))
 
@@ -694,6 +747,8 @@ class Seg:
         if is_conc(x) and is_conc(y):
             return {'+': lambda: x + y, '-': lambda: x - y, '*': lambda: x * y, '<': lambda: x < y, '<=': lambda: x <= y,
                     '>': lambda: x > y, '>=': lambda: x >= y, '==': lambda: x == y, '!=': lambda: x != y}[tok]()
+        if isinstance(x, tuple) and isinstance(y, tuple) and tok in ('==', '!=') and not has_term(x) and not has_term(y) and x[0] != 'map' and y[0] != 'map':
+            return (x == y) if tok == '==' else (x != y)
         if isinstance(x, tuple) or isinstance(y, tuple):
             # comparisons of maps / pointers with nil
             if tok in ('==', '!='):
@@ -725,7 +780,10 @@ class Seg:
     # ----- calls -----
     def call(self, p, fr, ins, A, at, reg):
         if 'invoke' in at:
-            raise Unsupported('interface method call ' + at['invoke'])
+            h = INTRINSICS.get('invoke:' + at['invoke'])
+            if h is None:
+                raise Unsupported('interface method call ' + at['invoke'])
+            return h(self, p, fr, [self.val(p, fr, a) for a in A], reg)
         callee = self.val(p, fr, A[0])
         args = [self.val(p, fr, a) for a in A[1:]]
         if callee[0] == 'builtin':
@@ -781,9 +839,114 @@ class Seg:
             return
         raise Unsupported('builtin ' + name)
 
+    # ----- channels (unbuffered; one receiver at a time) -----
+    # errc-like channels: <ch>.rwait (a receiver is parked), <ch>.full (a value
+    # was handed over and not yet taken), <ch>.val. A send completes only
+    # while a receiver is parked (rendezvous); the receiver takes the value in
+    # a later transition of its own. Environment channels (ctx.Done(),
+    # timer.C) are receive-only and ready once the environment fired them.
+    def chan_send_ready(self, p, ch):
+        m = self.m
+        return z3.And(p.get(m.var(ch[1] + '.rwait', 'bool')), z3.Not(p.get(m.var(ch[1] + '.full', 'bool'))))
+
+    def chan_do_send(self, p, ch, val):
+        m = self.m
+        p.set(m.var(ch[1] + '.full', 'bool'), z3.BoolVal(True))
+        p.set(m.var(ch[1] + '.val'), to_bv(val))
+
+    def chan_recv_ready(self, p, ch):
+        m = self.m
+        if ch[1] == 'ctxdone':
+            return p.get(m.var('ctx.done', 'bool'))
+        if ch[1] == 'timerC':
+            return z3.And(p.get(m.var('timer.fired', 'bool')), z3.Not(p.get(m.var('timer.taken', 'bool'))))
+        raise Unsupported('receive in select from a program channel')
+
+    def chan_do_recv(self, p, ch):
+        if ch[1] == 'timerC':
+            p.set(self.m.var('timer.taken', 'bool'), z3.BoolVal(True))
+
+    def send(self, p, fr, ch, val):
+        if not (isinstance(ch, tuple) and ch[0] == 'chan') or ch[1] in ('ctxdone', 'timerC'):
+            raise Unsupported('send on %r' % (ch,))
+        if self.before_visible(p, 'send'):
+            self.cut(p); return
+        p.guard.append(self.chan_send_ready(p, ch))
+        self.chan_do_send(p, ch, val)
+        fr.idx += 1
+
+    def recv(self, p, fr, ch, reg, commaok):
+        if commaok:
+            raise Unsupported('comma-ok receive')
+        if not (isinstance(ch, tuple) and ch[0] == 'chan'):
+            raise Unsupported('receive from %r' % (ch,))
+        m = self.m
+        if ch[1] in ('ctxdone', 'timerC'):
+            if self.before_visible(p, 'recv'):
+                self.cut(p); return
+            p.guard.append(self.chan_recv_ready(p, ch))
+            self.chan_do_recv(p, ch)
+            self.setreg(p, fr, reg, 0)
+            fr.idx += 1
+            return
+        rwait = m.var(ch[1] + '.rwait', 'bool')
+        full = m.var(ch[1] + '.full', 'bool')
+        if fr.statics.get('R!resuming'):
+            fr.statics.pop('R!resuming')
+            if self.before_visible(p, 'recv-complete'):
+                fr.statics['R!resuming'] = True
+                self.cut(p); return
+            p.guard.append(p.get(full))
+            self.setreg(p, fr, reg, p.get(m.var(ch[1] + '.val')))
+            p.set(full, z3.BoolVal(False))
+            p.set(rwait, z3.BoolVal(False))
+            fr.idx += 1
+            return
+        if self.before_visible(p, 'recv-park'):
+            self.cut(p); return
+        self.flag(p, 'two-receivers-on-one-channel', p.get(rwait))
+        p.set(rwait, z3.BoolVal(True))
+        fr.statics['R!resuming'] = True
+        self.cut(p)
+
+    def select(self, p, fr, ins, A, at, reg):
+        if not at.get('blocking'):
+            raise Unsupported('non-blocking select')
+        dirs = at['dirs']
+        if len(dirs) != 2:
+            raise Unsupported('select with %d cases' % len(dirs))
+        if self.before_visible(p, 'select'):
+            self.cut(p); return
+        cases = []
+        for i, d in enumerate(dirs):
+            ch = self.val(p, fr, A[2 * i])
+            if not (isinstance(ch, tuple) and ch[0] == 'chan'):
+                raise Unsupported('select on %r' % (ch,))
+            if d == 'send':
+                cases.append((d, ch, self.val(p, fr, A[2 * i + 1]), self.chan_send_ready(p, ch)))
+            else:
+                cases.append((d, ch, None, self.chan_recv_ready(p, ch)))
+        # the solver picks among the ready cases; the two guards are exclusive and
+        # their union (some case ready) does not depend on the pick
+        pick = p.choice('select')
+        r0, r1 = cases[0][3], cases[1][3]
+        q = p.fork()
+        p.guard.append(z3.And(r0, z3.Or(pick == BV(0), z3.Not(r1))))
+        q.guard.append(z3.And(r1, z3.Or(pick != BV(0), z3.Not(r0))))
+        for i, pp in ((0, p), (1, q)):
+            d, ch, val, _r = cases[i]
+            f2 = pp.frames[-1]
+            if d == 'send':
+                self.chan_do_send(pp, ch, val)
+            else:
+                self.chan_do_recv(pp, ch)
+            self.setreg(pp, f2, reg, (i, True, 0))
+            f2.idx += 1
+        return [q]
+
     def spawn(self, p, callee, args):
         m = self.m
-        entry = Frame(callee[1], 0, 0, {})
+        entry = Frame(callee[1], 0, 0, dict(callee[2]) if len(callee) > 2 and callee[2] else {})
         fn = m.funcs[callee[1]]
         for pn, a in zip(fn['params'] or [], args):
             if not isinstance(a, tuple):
@@ -791,7 +954,7 @@ class Seg:
             entry.statics[pn] = a
         locid = m.loc_id(((entry.key(),), None))
         placed = z3.BoolVal(False)
-        for s in range(1, m.nthreads):
+        for s in range(1, m.nprog):
             act = m.var('T%d.active' % s, 'bool')
             free = z3.And(z3.Not(p.get(act)), z3.Not(placed))
             p.set(m.var('T%d.pc' % s, 'pc'), z3.If(free, PC(locid), p.get(m.var('T%d.pc' % s, 'pc'))))
@@ -997,6 +1160,115 @@ def i_astore(seg, p, fr, args, reg):
     seg.store(p, fr, args[0], args[1])
     fr.idx += 1
 
+# ----- context, process, timer (mode wos) -----
+ERR_NIL, ERR_CTX, ERR_PROCDONE, ERR_WAIT = 0, 1, 2, 4
+
+@intrinsic('invoke:Done')
+def i_ctxdone(seg, p, fr, args, reg):
+    seg.setreg(p, fr, reg, ('chan', 'ctxdone')); fr.idx += 1
+
+@intrinsic('invoke:Err')
+def i_ctxerr(seg, p, fr, args, reg):
+    if seg.before_visible(p, 'ctx.Err'):
+        seg.cut(p); return
+    seg.setreg(p, fr, reg, z3.If(p.get(seg.m.var('ctx.done', 'bool')), BV(ERR_CTX), BV(ERR_NIL)))
+    fr.idx += 1
+
+def deliver(seg, p, what):
+    m = seg.m
+    waited = p.get(m.var('proc.waited', 'bool'))
+    running = p.get(m.var('proc.running', 'bool', init=z3.BoolVal(True)))
+    tgt = m.var('proc.' + what, 'bool')
+    p.set(tgt, z3.Or(p.get(tgt), z3.Not(waited)))
+    hit = m.var('proc.hit', 'bool')
+    p.set(hit, z3.Or(p.get(hit), running))
+    return waited
+
+@intrinsic('(*os.Process).Signal')
+def i_psignal(seg, p, fr, args, reg):
+    if seg.before_visible(p, 'Process.Signal'):
+        seg.cut(p); return
+    m = seg.m
+    sig = args[1]
+    if not (is_conc(sig) and sig == 3):
+        raise Unsupported('Signal(%r)' % (sig,))
+    seg.flag(p, 'signal-sent-before-the-deadline', z3.Not(p.get(m.var('ctx.done', 'bool'))))
+    waited = deliver(seg, p, 'interrupted')
+    p.set(m.var('proc.intsent', 'bool'), z3.BoolVal(True))
+    sigok = m.var('proc.sigok', 'bool')
+    p.set(sigok, z3.Or(p.get(sigok), z3.Not(waited)))
+    # os.Process.Signal: ErrProcessDone once the process has been waited for, nil otherwise
+    seg.setreg(p, fr, reg, z3.If(waited, BV(ERR_PROCDONE), BV(ERR_NIL)))
+    fr.idx += 1
+
+@intrinsic('(*os.Process).Kill')
+def i_pkill(seg, p, fr, args, reg):
+    if seg.before_visible(p, 'Process.Kill'):
+        seg.cut(p); return
+    m = seg.m
+    seg.flag(p, 'kill-sent-before-the-deadline', z3.Not(p.get(m.var('ctx.done', 'bool'))))
+    seg.flag(p, 'kill-without-interrupt-first', z3.Not(p.get(m.var('proc.intsent', 'bool'))))
+    seg.flag(p, 'kill-before-the-grace-period-elapsed', z3.Not(p.get(m.var('timer.fired', 'bool'))))
+    waited = deliver(seg, p, 'killed')
+    p.set(m.var('proc.killsent', 'bool'), z3.BoolVal(True))
+    seg.setreg(p, fr, reg, z3.If(waited, BV(ERR_PROCDONE), BV(ERR_NIL)))
+    fr.idx += 1
+
+@intrinsic('(*os/exec.Cmd).Wait')
+def i_cmdwait(seg, p, fr, args, reg):
+    if seg.before_visible(p, 'Cmd.Wait'):
+        seg.cut(p); return
+    m = seg.m
+    p.guard.append(z3.Not(p.get(m.var('proc.running', 'bool', init=z3.BoolVal(True)))))
+    p.set(m.var('proc.waited', 'bool'), z3.BoolVal(True))
+    # a process ended by a signal yields an *ExitError; one that exited by itself yields its own status
+    we = z3.If(p.get(m.var('proc.sigdeath', 'bool')), BV(ERR_WAIT), z3.If(m.const('SELF_FAILS'), BV(ERR_WAIT), BV(ERR_NIL)))
+    p.set(m.var('proc.waiterr'), we)
+    seg.setreg(p, fr, reg, we)
+    fr.idx += 1
+
+@intrinsic('time.NewTimer')
+def i_newtimer(seg, p, fr, args, reg):
+    m = seg.m
+    seg.flag(p, 'second-timer', p.get(m.var('timer.started', 'bool')))
+    seg.flag(p, 'timer-with-nonpositive-delay', z3.Not(to_bv(args[0]) > BV(0)))
+    p.set(m.var('timer.started', 'bool'), z3.BoolVal(True))
+    seg.setreg(p, fr, reg, ('timer',))
+    fr.idx += 1
+
+@intrinsic('(*time.Timer).Stop')
+def i_timerstop(seg, p, fr, args, reg):
+    m = seg.m
+    fired = p.get(m.var('timer.fired', 'bool'))
+    p.set(m.var('timer.stopped', 'bool'), z3.BoolVal(True))
+    seg.setreg(p, fr, reg, z3.Not(fired))
+    fr.idx += 1
+
+@intrinsic('vWosCtx')
+def i_wosctx(seg, p, fr, args, reg):
+    seg.setreg(p, fr, reg, ('ctx',)); fr.idx += 1
+
+@intrinsic('vWosCmd')
+def i_woscmd(seg, p, fr, args, reg):
+    seg.setreg(p, fr, reg, ('cmdptr',)); fr.idx += 1
+
+@intrinsic('vWosKillDelay')
+def i_woskd(seg, p, fr, args, reg):
+    seg.setreg(p, fr, reg, seg.m.const('KD', 'bv')); fr.idx += 1
+
+@intrinsic('vWosReturned')
+def i_wosret(seg, p, fr, args, reg):
+    m = seg.m
+    err = to_bv(args[0])
+    p.set(m.var('returned', 'bool'), z3.BoolVal(True))
+    p.set(m.var('wos.err'), err)
+    seg.flag(p, 'returned-while-the-process-is-still-running', p.get(m.var('proc.running', 'bool', init=z3.BoolVal(True))))
+    seg.flag(p, 'returned-without-waiting-for-the-process', z3.Not(p.get(m.var('proc.waited', 'bool'))))
+    seg.flag(p, 'command-stopped-by-the-deadline-reported-as-success', z3.And(p.get(m.var('proc.hit', 'bool')), err == BV(ERR_NIL)))
+    seg.flag(p, 'result-differs-from-wait-although-no-signal-was-delivered', z3.And(z3.Not(p.get(m.var('proc.sigok', 'bool'))), err != p.get(m.var('proc.waiterr'))))
+    seg.flag(p, 'timed-out-reported-before-the-deadline', z3.And(err == BV(ERR_CTX), z3.Not(p.get(m.var('ctx.done', 'bool')))))
+    fr.idx += 1
+
 # harness
 @intrinsic('vParamItems')
 def i_pitems(seg, p, fr, args, reg):
@@ -1182,11 +1454,34 @@ def compute_reach(m, seg, entries):
         for locid, loc in enumerate(m.loc_list):
             frames, holding = loc
             if len(frames) == 1 and frames[0][1] == 0 and frames[0][2] == 0 and frames[0][0] in m.cfg.get('spawned', []):
-                for s in range(1, m.nthreads):
+                for s in range(1, m.nprog):
                     if locid not in m.reach[s]:
                         m.reach[s].add(locid)
                         changed = True
     return entry_locs
+
+# environment of waitOrStop: each process has one location and one guarded self-loop
+WOS_ENV = ['deadline-fires', 'process-exits-by-itself', 'process-exits-on-interrupt', 'process-dies-from-kill', 'timer-fires']
+
+def add_env_threads(m, entry_locs):
+    S = lambda n: m.tmpl(n)
+    T, F = z3.BoolVal(True), z3.BoolVal(False)
+    defs = {
+        'deadline-fires': ([m.const('DEADLINE_SET'), z3.Not(S('ctx.done'))], {'ctx.done': T}),
+        'process-exits-by-itself': ([m.const('EXITS_BY_ITSELF'), S('proc.running')], {'proc.running': F}),
+        'process-exits-on-interrupt': ([z3.Not(m.const('IGNORES_INTERRUPT')), S('proc.running'), S('proc.interrupted')], {'proc.running': F, 'proc.sigdeath': T}),
+        'process-dies-from-kill': ([S('proc.running'), S('proc.killed')], {'proc.running': F, 'proc.sigdeath': T}),
+        'timer-fires': ([S('timer.started'), z3.Not(S('timer.fired')), z3.Not(S('timer.stopped'))], {'timer.fired': T}),
+    }
+    for i, name in enumerate(WOS_ENV):
+        tid = m.nprog + i
+        loc = m.loc_id((('ENV', name), None))
+        guards, updates = defs[name]
+        p = Path(m, tid, [], None, dict(updates), list(guards))
+        p.finished = ('loc', loc)
+        m.reach[tid] = {loc}
+        m.summaries[(tid, loc)] = [p]
+        entry_locs[tid] = loc
 
 def unroll(m, K, entry_locs, initial_active):
     """Standard BMC unrolling: the transition relation is built once over
@@ -1294,7 +1589,7 @@ def main():
         z3.set_param('parallel.threads.max', int(os.environ.get('TSYS_THREADS', '16')))
     ap = argparse.ArgumentParser()
     ap.add_argument('--ssa', required=True)
-    ap.add_argument('--mode', choices=['work', 'cache'], required=True)
+    ap.add_argument('--mode', choices=['work', 'cache', 'wos'], required=True)
     ap.add_argument('--workers', type=int, default=2)
     ap.add_argument('--items', type=int, default=2)
     ap.add_argument('--goroutines', type=int, default=3)
@@ -1302,6 +1597,8 @@ def main():
     ap.add_argument('--out', default='')
     ap.add_argument('--timeout', type=int, default=600)
     ap.add_argument('--ck', default='', help='cache mode: fix the call kinds, e.g. 0,0,2')
+    ap.add_argument('--env', default='', help='wos mode: fix environment constants, e.g. DEADLINE_SET=1,IGNORES_INTERRUPT=1')
+    ap.add_argument('--no-witness', action='store_true', help='wos mode: only require that a complete run exists')
     ap.add_argument('--graph', default='', help='work mode: fix initial adds and item graph, e.g. I=100,G=010001000 (row-major)')
     args = ap.parse_args()
     ssa = json.load(open(args.ssa))
@@ -1316,6 +1613,14 @@ def main():
         }
         entries = [(0, 'github.com/rogpeppe/go-internal/par.VerifWorkMain', {})]
         initial_active = {0}
+    elif args.mode == 'wos':
+        # T0 = the goroutine running the command, T1 = the helper goroutine; T2.. = environment processes
+        pk = 'github.com/rogpeppe/go-internal/testscript.'
+        cfg = {'threads': 2 + len(WOS_ENV), 'nprog': 2, 'workers': 0, 'items': 0, 'maxtodo': 0, 'pool': 0, 'keys': 0,
+               'fields': {}, 'cells': True, 'globals': {'ErrProcessDone': ERR_PROCDONE},
+               'spawned': [pk + 'waitOrStop$1']}
+        entries = [(0, pk + 'VerifWosMain', {})]
+        initial_active = {0} | set(range(2, 2 + len(WOS_ENV)))
     else:
         g = args.goroutines
         cfg = {'threads': g, 'workers': 0, 'items': 0, 'maxtodo': 0, 'pool': g, 'keys': 2,
@@ -1331,8 +1636,16 @@ def main():
         m.var('T%d.done' % t, 'bool')
         m.var('T%d.parked' % t, 'bool')
     m.var('spawned')
+    if args.mode == 'wos':
+        m.var('proc.running', 'bool', init=z3.BoolVal(True))
+        for n in ('ctx.done', 'proc.waited', 'proc.interrupted', 'proc.killed', 'proc.hit', 'proc.sigok', 'proc.intsent', 'proc.killsent', 'proc.sigdeath',
+                  'timer.started', 'timer.fired', 'timer.taken', 'timer.stopped', 'returned'):
+            m.var(n, 'bool')
+        m.var('proc.waiterr'); m.var('wos.err')
     try:
         entry_locs = compute_reach(m, seg, entries)
+        if args.mode == 'wos':
+            add_env_threads(m, entry_locs)
     except Unsupported as e:
         print('UNSUPPORTED', e)
         result = {'status': 'unsupported', 'detail': str(e)}
@@ -1351,7 +1664,7 @@ def main():
         return z3.Or(*errs) if errs else z3.BoolVal(False)
 
     def all_done(st):
-        return z3.And(*[z3.Or(z3.Not(st['T%d.active' % t]), st['T%d.done' % t]) for t in range(m.nthreads)])
+        return z3.And(*[z3.Or(z3.Not(st['T%d.active' % t]), st['T%d.done' % t]) for t in range(m.nprog)])
 
     base = list(cons)
     # the scheduler picks a thread; a step by a thread that is not enabled is a stutter step and
@@ -1370,6 +1683,15 @@ def main():
             for t, c in enumerate(args.ck.split(',')):
                 base.append(m.const('CK_%d' % t, 'bv') == BV(int(c)))
 
+    live = []
+    if args.mode == 'wos':
+        base.append(m.const('KD', 'bv') > BV(0))     # the grace period is positive (RunT: at least 100ms)
+        # termination is claimed only where something ends the command: a deadline is set or it exits by itself
+        live = [z3.Or(m.const('DEADLINE_SET'), m.const('EXITS_BY_ITSELF'))]
+        for c in (args.env or '').split(','):
+            if c:
+                k, b = c.split('=')
+                base.append(m.const(k) == (b == '1'))
     if args.mode == 'work' and args.graph:
         n = args.items
         for part in args.graph.split(','):
@@ -1403,11 +1725,16 @@ def main():
     for k in range(K):
         en = info[k]['enabled']
         dl.append(z3.And(z3.Not(z3.Or(*en)), z3.Not(all_done(states[k]))))
-    rb, mb = check('deadlock', z3.Or(*dl), 'unsat')
+    rb, mb = check('deadlock', z3.And(z3.Or(*dl), *live), 'unsat')
     # (c) unwinding assertion: after K steps everything has finished
-    rc, mc = check('unwinding', z3.Not(all_done(states[K])), 'unsat')
+    rc, mc = check('unwinding', z3.And(z3.Not(all_done(states[K])), *live), 'unsat')
     # (d) witness: a complete run exists in which something happened
-    if args.mode == 'work':
+    if args.mode == 'wos' and args.no_witness:
+        wit = z3.And(all_done(states[K]), states[K]['returned'])
+    elif args.mode == 'wos':
+        # the full escalation happens: interrupt ignored, killed after the grace period, reported as timed out
+        wit = z3.And(all_done(states[K]), states[K]['returned'], states[K]['proc.killsent'], states[K]['proc.sigdeath'], m.const('IGNORES_INTERRUPT'), z3.Not(m.const('EXITS_BY_ITSELF')), states[K]['wos.err'] == BV(ERR_CTX))
+    elif args.mode == 'work':
         wit = z3.And(all_done(states[K]), states[K]['returned'], states[K]['count.0'] == BV(1))
     else:
         wit = z3.And(all_done(states[K]), states[K]['inv.0'] == BV(1))
@@ -1468,6 +1795,9 @@ def describe(m, states, info, mdl, kind, K):
         pc = ev(states[k]['T%d.pc' % t]).as_long()
         loc = m.loc_list[pc] if pc < len(m.loc_list) else None
         where = None
+        if loc and loc[0][0] == 'ENV':
+            trace.append({'step': k, 'goroutine': t, 'loc': pc, 'at': 'environment: ' + loc[0][1], 'op': 'env', 'env': loc[0][1], 'entry': False, 'choices': [], 'choices_used': [], 'fired': None})
+            continue
         if loc:
             fr = loc[0][-1]
             f = m.funcs[fr[0]]
@@ -1487,12 +1817,14 @@ def describe(m, states, info, mdl, kind, K):
             opname = ins['op']
             if ins['op'] == 'Call' and ins.get('args') and 'func' in ins['args'][0]:
                 opname = 'Call ' + ins['args'][0]['func']
+            elif ins['op'] == 'Call' and ins.get('attrs', {}).get('invoke'):
+                opname = 'Call invoke:' + ins['attrs']['invoke']
             entry = len(loc[0]) == 1 and fr[1] == 0 and fr[2] == 0
         trace.append({'step': k, 'goroutine': t, 'loc': pc, 'at': where, 'op': opname, 'entry': entry, 'choices': chs, 'choices_used': used, 'fired': fired})
     final = {}
     last = states[min(len(trace), K)]
     for n in m.order:
-        if n in last and (n.startswith('err.') or n.startswith('count.') or n.startswith('ended.') or n.startswith('inv.') or n in ('inflight', 'returned', 'vW.waiting', 'vW.todo.len', 'spawned')):
+        if n in last and (n.startswith('err.') or n.startswith('count.') or n.startswith('ended.') or n.startswith('inv.') or n.startswith('proc.') or n.startswith('timer.') or n.startswith('ctx.') or n.startswith('wos.') or n in ('inflight', 'returned', 'vW.waiting', 'vW.todo.len', 'spawned')):
             final[n] = str(ev(last[n]))
     if os.environ.get('TSYS_DEBUG'):
         final['ALL'] = {n: str(ev(last[n])) for n in m.order if n in last}
